@@ -230,6 +230,14 @@ def run_shard(sh):
                 judge(res, rc, eng, [r1, r2], dlm, pol)
                 res.states += 1
         res.transitions += res.states
+        # scale probe: rows of 5, 10 and 12 fields (every field value at every position of a 5-field row; all-equal and alternating wide rows)
+        for f in F:
+            for pos in range(5):
+                row = [o1] * 5
+                row[pos] = f
+                judge(res, rc, eng, [row], dlm, pol)
+            judge(res, rc, eng, [[f] * 10, [f, o1] * 6], dlm, pol)
+            res.feat('wide_rows')
         # None cells, also inside list-valued cells (ARRAY_AGG / [a1, a2] results)
         for f in F:
             judge(res, rc, eng, [[None, f]], dlm, pol)
